@@ -690,6 +690,29 @@ fn check_escape(ctx: &mut Ctx, lines: &[String], crlf: bool, trailing: bool, wit
     if joined.contains("TXTPP#") || with_tag.map(|t| joined.contains(t)).unwrap_or(false) {
         ctx.distinct.insert(hash_str(&format!("esc{src}")));
     }
+    // the same source through the binary, with logging switched on by the environment: the log
+    // level must not change a single byte of the output
+    if got == want && hash_str(&src) % 25 == 0 {
+        let level = ["debug", "trace", "txtpp=debug", "info", "txtpp=trace,warn"][(hash_str(&src) / 25 % 5) as usize];
+        let root = ctx.scratch.fresh();
+        let mut files = Files::new();
+        files.insert("t.txt.txtpp".into(), src.clone().into_bytes());
+        crate::util::materialize(&root, &files, &[]);
+        let mut args: Vec<String> = vec!["-q".into()];
+        if !trailing {
+            args.push("-n".into());
+        }
+        args.push("t.txt".into());
+        let o = crate::run::run_cli(&root, &args, &crate::run::CliOpts { env: vec![("RUST_LOG".into(), level.into())], ..Default::default() });
+        ctx.evals += 1;
+        ctx.count("cli_runs_with_RUST_LOG", 1);
+        ctx.cover("rust_log_levels", level);
+        let out = std::fs::read(root.join("t.txt")).unwrap_or_default();
+        if !o.timed_out && (o.code != Some(0) || out != want) {
+            ctx.violation("C16:escape:not-reproduced", format!("through the CLI with RUST_LOG={level}: exit {:?}, output {} expected {}", o.code, show(&out), show(&want)), json!({"kind": "escape-cli-env", "lines": lines, "crlf": crlf, "trailing": trailing, "with_tag": with_tag, "rust_log": level}));
+        }
+        ctx.scratch.discard(&root);
+    }
 }
 
 /// write output stored in a tag is inert as well: when it is injected, a tag name it contains is
@@ -755,6 +778,15 @@ fn run_c16(ctx: &mut Ctx) {
                     continue;
                 }
                 let final_nl = r.gen_bool(0.7);
+                let mut lines = lines;
+                if r.gen_range(0..12) == 0 {
+                    // a byte order mark is part of the first line's text
+                    let with_bom = format!("\u{feff}{}", lines[0]);
+                    if model::detect(&with_bom).is_none() {
+                        lines[0] = with_bom;
+                        ctx.count("identity_cases_starting_with_a_byte_order_mark", 1);
+                    }
+                }
                 check_identity(ctx, &lines, crlf, final_nl, trailing);
                 ctx.count("identity_cases", 1);
                 if i % 4 == 0 {
